@@ -40,6 +40,13 @@ CASES = {
     "poly_linear_amp": [([7, 0.25], {})],
     "poly": [("polyargs", {"--polyname": "gibbs", "--polyargs": [6, 2.0]}), ("polyargs", {"--polyname": "poly_sign", "--polyargs": [7, 3]}),
              ("polyargs", {"--polyname": "efilter", "--polyargs": [6, 0.3, 0.8]})],
+    # long polynomials (more than 24, 32 coefficients) through the same commands
+    "gibbs ": [([30, 3.5], {})],
+    "poly_sign ": [([31, 10], {})],
+    "invert ": [([3, 0.1], {})],
+    "hamsim ": [([16.0, 0.01], {})],
+    "poly_thresh ": [([26, 8], {})],
+    "poly2angles ": [(None, {"--poly": [0.0, 0.02] * 13}), (None, {"--poly": [0.015 * (-1) ** (i // 2) if i % 2 == 0 else 0.0 for i in range(35)]})],
     "angles": [("seqargs", {"--seqname": "fpsearch", "--seqargs": [5, 0.4]}), ("seqargs", {"--seqname": "erf_step", "--seqargs": [7]})],
 }
 
@@ -141,6 +148,7 @@ def as_list(x):
 
 def one(ctx, M, cmd, seqargs, opts, form, so, mode):
     drv = ctx.driver()
+    cmd = cmd.strip()
     argv = ["--signal_operator", so, "--tolerance", "1e-6"]
     parsed_expect = {}
     opts = dict(opts)
@@ -190,6 +198,8 @@ def one(ctx, M, cmd, seqargs, opts, form, so, mode):
     kw = dict(x.split("=") for x in kw.split(",")) if kw else {}
     # (1) generators called as the table says, with the parsed list splatted
     got = [g[0] for g in log["gen"] if g[0] in gens]
+    if propagated and got == gens[:len(got)] and got:
+        gens = got                      # the phase finder refused the first polynomial: the CLI rightly never got to the next generator
     if got != gens:
         ctx.violation("c20:generator:%s" % cmd, "command %s called generators %s, table says %s" % (cmd, [g[0] for g in log["gen"]], gens), replay)
         return
@@ -217,6 +227,10 @@ def one(ctx, M, cmd, seqargs, opts, form, so, mode):
                 return
             if k.get("signal_operator") != so or k.get("method") != "laurent" or k.get("tolerance") != 1e-6:
                 ctx.violation("c20:options:%s" % cmd, "phase finder received options %s (requested signal_operator=%s, method=laurent, tolerance=1e-6)" % (k, so), replay)
+                return
+            extra = sorted(set(k) - {"signal_operator", "method", "tolerance", "nepochs", "npts_theta"})
+            if extra:
+                ctx.violation("c20:options-extra:%s" % cmd, "phase finder received settings nobody asked for on the command line: %s" % {e: k[e] for e in extra}, replay)
                 return
         if propagated:
             return                      # the library refused; the CLI passed its exception on unchanged
